@@ -1192,14 +1192,21 @@ def restore_names(fn, ref):
             mapping[x] = y
     # injective, and no capture: the reference name must not denote something else in the current function
     all_names = {n.id for n in ast.walk(fn) if isinstance(n, ast.Name)} | {x.arg for x in ast.walk(fn) if isinstance(x, ast.arg)}
-    taken = {}
-    for x, y in sorted(mapping.items(), key=lambda kv: -max(votes[kv[0]].values())):
-        if y in taken:
-            continue
-        if y in all_names and y not in mapping:     # y is in use and is not itself renamed away
-            continue
-        taken[y] = x
-    mapping = {x: y for y, x in taken.items()}
+    # a reference name that is in use may only be taken if its present holder is itself renamed away - by a renaming that
+    # survives this very check: iterate to a fixed point
+    all_names |= {n.name for n in ast.walk(fn) if isinstance(n, (ast.FunctionDef, ast.AsyncFunctionDef, ast.ClassDef)) and n is not fn}
+    while True:
+        taken = {}
+        for x, y in sorted(mapping.items(), key=lambda kv: -max(votes[kv[0]].values())):
+            if y in taken:
+                continue
+            if y in all_names and y not in mapping:     # y is in use and is not itself renamed away
+                continue
+            taken[y] = x
+        new_mapping = {x: y for y, x in taken.items()}
+        if new_mapping == mapping:
+            break
+        mapping = new_mapping
     if not mapping:
         return {}
     for n in ast.walk(fn):
